@@ -71,13 +71,16 @@ def run(prog: Program, rep, tier: str) -> None:
                 why = "Evaluator forwards its own argument"
             elif cq == "pygradflow.scale.ScaledProblem":
                 p0 = [p for p in fi.params if p != 'self'][0]
-                ok = a0 in (f"self._orig_x({p0})", f"np.ldexp({p0}, -self.scaling.var_weights)") and recv == "self.problem"
-                why = "ScaledProblem forwards _orig_x(own argument)"
+                # the unscaled point: through the private helper, written out, or through Scaling.unscale_primal (all ldexp(x, -v):
+                # exponent forms are C04's rule; bounds are scaled by the same exact powers of two)
+                ok = a0 in (f"self._orig_x({p0})", f"np.ldexp({p0}, -self.scaling.var_weights)", f"self.scaling.unscale_primal({p0})") and recv == "self.problem"
+                why = "ScaledProblem forwards the unscaled own argument"
             elif cq == "pygradflow.cons_problem.ConstrainedProblem":
                 p0 = [p for p in fi.params if p != "self"][0]
                 ok = recv == "self.problem" and (a0 in (f"self.orig_vals({p0})", f"{p0}[:self.problem.num_vars]") or (fi.name == "transform_sol" and a0 == p0))
                 why = "ConstrainedProblem forwards orig_vals(own argument) (transform_sol: the given start)"
-            elif fi.qualname in ("pygradflow.solver.Solver._deriv_check", "pygradflow.scale.create_scaling") or fi.qualname.startswith("pygradflow.deriv_check."):
+            elif _top(fi).qualname in ("pygradflow.solver.Solver._deriv_check", "pygradflow.scale.create_scaling") or fi.qualname.startswith("pygradflow.deriv_check.") \
+                    or _only_called_from(prog, fi, ("pygradflow.solver.Solver._deriv_check", "pygradflow.scale.create_scaling")):
                 ok, why = True, "exempt by the statement (derivative check / scaling point)"
             rep.check(ok, "evaluation-who-may-call", fi.qualname, short(si.stmt) if si is not None else U(n),
                       f"callback call `{U(n)[:70]}` is a sanctioned evaluation site ({why or 'not one of the sanctioned forms'})", fi.loc(n))
@@ -134,6 +137,49 @@ def box_safe(prog: Program, fi: FuncInfo, ff, si, x: ast.AST, prob: str, raw: as
             return False, why
         reasons.append(why)
     return True, "; ".join(sorted(set(reasons)))
+
+
+def _top(fi):
+    while getattr(fi, "parent", None) is not None:
+        fi = fi.parent
+    return fi
+
+
+def _only_called_from(prog, fi, roots) -> bool:
+    """fi is a NEW function (or a closure inside one) every call site of which lies in one of the exempt functions (or in
+    another such new function): a helper of the derivative check / of the scaling-point evaluation."""
+    from ..inline import known_functions
+    known = known_functions()
+    top = fi
+    while getattr(top, "parent", None) is not None:
+        top = top.parent
+    if top.qualname in known:
+        return False
+    seen = set()
+    todo = [top]
+    while todo:
+        f = todo.pop()
+        if f.qualname in seen:
+            continue
+        seen.add(f.qualname)
+        callers = []
+        for g in prog.functions.values():
+            for c in own_nodes(g.node):
+                if isinstance(c, ast.Call) and (isinstance(c.func, ast.Name) and c.func.id == f.name or isinstance(c.func, ast.Attribute) and c.func.attr == f.name):
+                    if any(t is f for t in prog.resolve_call_target(g, c)) or (isinstance(c.func, ast.Name) and c.func.id == f.name and g.module is f.module):
+                        gt = g
+                        while getattr(gt, "parent", None) is not None:
+                            gt = gt.parent
+                        callers.append(gt)
+        if not callers:
+            return False
+        for g in callers:
+            if g.qualname in roots:
+                continue
+            if g.qualname in known:
+                return False
+            todo.append(g)
+    return True
 
 
 def _box_safe_one(prog, fi, ff, si, a: ast.AST, prob: str, raw: ast.AST):
